@@ -36,7 +36,8 @@ MANIFEST = {
 }
 RULE = ("histories of 1-20 operations (match with has_no_result/succeeded(m)/failed(m), m from Always/Never/Is k closed "
         "under Not/MatchesAll/MatchesAny; callback(v); errback(e), e an ordinary class, Twisted's AlreadyCalledError/CancelledError or the helpers' "
-        "own DeferredNotFired/ImpossibleDeferredError; addCallbacks with pass/constant/raise/recording "
+        "own DeferredNotFired/ImpossibleDeferredError or a non-Exception BaseException (KeyboardInterrupt, SystemExit, "
+        "GeneratorExit, a custom subclass); addCallbacks with pass/constant/raise/recording "
         "functions or one returning an unfired Deferred; pause/unpause; firing or failing the Deferred the chain waits "
         "for; extract_result) on one fresh real Deferred, each followed by dropping the Deferred and gc.collect() "
         "under a log observer: fixed corners, each Deferred state with 0-3 callbacks x all matchers, all histories to "
@@ -64,7 +65,12 @@ N_EXC = 4
 NOTFIRED, IMPOSSIBLE = 90, 91        # Model.DeferredMatchers.notfired_tok / impossible_tok
 # exception class tokens: 0-3 ordinary classes, 4/5 Twisted's own AlreadyCalledError / CancelledError, and the two
 # classes the helpers under test raise themselves (a failure or a test may carry them just as well)
-EXC_TOKS = [0, 1, 2, 3, 4, 5, NOTFIRED, IMPOSSIBLE]
+# 6-9: BaseException classes that are NOT Exceptions (KeyboardInterrupt, SystemExit, GeneratorExit, a custom
+# BaseException subclass): Deferred.errback / a raising callback / maybeDeferred capture them into a Failure like
+# any other class (Model.DeferredMatchers.kbint_tok ...)
+KBINT, SYSEXIT, GENEXIT, DBASE = 6, 7, 8, 9
+BASE_TOKS = [KBINT, SYSEXIT, GENEXIT, DBASE]
+EXC_TOKS = [0, 1, 2, 3, 4, 5] + BASE_TOKS + [NOTFIRED, IMPOSSIBLE]
 CAUGHT = 4999
 
 
@@ -82,7 +88,8 @@ class _Ctx:
         from twisted.internet import defer
         from testtools.twistedsupport._deferred import DeferredNotFired, ImpossibleDeferredError
         self.special = {4: defer.AlreadyCalledError, 5: defer.CancelledError, NOTFIRED: DeferredNotFired,
-                        IMPOSSIBLE: ImpossibleDeferredError}
+                        IMPOSSIBLE: ImpossibleDeferredError, KBINT: KeyboardInterrupt, SYSEXIT: SystemExit,
+                        GENEXIT: GeneratorExit, DBASE: type("DBase", (BaseException,), {})}
         self.unknown = object()        # a value outside the pool (token 98)
 
     def mkexc(self, t):
@@ -257,7 +264,7 @@ def _run_history(ctx, ops, want_erased):
             elif k == "extract":
                 try:
                     out = ["extract", ["ok", ctx.tok(extract_result(d))[1]]]
-                except Exception as e:
+                except BaseException as e:
                     # by class only: DeferredNotFired is token 90 whether extract_result raised it because there
                     # is no result or because the failure carries one
                     t = ctx.exctok(e)
@@ -349,7 +356,7 @@ def _drive_sync(ctx, case):
             ret = rt._run_user(lambda: behave(tc, mode))
         except DeferredNotFired:
             return ["raised", "notfired"]
-        except Exception:
+        except BaseException:
             return ["raised", "other"]
         if ret is rt.exception_caught:
             return ["caught", exc_tok(rt._exceptions[-1])]
@@ -381,7 +388,7 @@ def _drive_sync(ctx, case):
         escaped = False
         try:
             T("test_x").run(res)
-        except Exception:
+        except BaseException:
             escaped = True               # an exception came out of run(): an event of its own (99x)
         out = []
         for ev in res._events:
@@ -494,7 +501,13 @@ def term(case, o):
 def perturb(case, o):
     o = dict(o)
     if case["kind"] == "hist":
-        o["ecalled"] = not o["ecalled"]
+        # in the first operation's before-fields: alpha (Corr.C20.cut) never forgets those
+        ops = [dict(x) for x in o["ops"]]
+        if ops:
+            ops[0]["cbefore"] = not ops[0]["cbefore"]
+            o["ops"] = ops
+        else:
+            o["ecalled"] = not o["ecalled"]
     else:
         o["fired"] = ["ret", 97]
     return o
@@ -504,20 +517,21 @@ def perturb(case, o):
 MATCHERS = [["noresult"], ["succeeded", ["always"]], ["failed", ["always"]], ["succeeded", ["never"]],
             ["failed", ["never"]], ["succeeded", ["is", 3]], ["succeeded", ["is", 0]], ["failed", ["is", 1]],
             ["failed", ["is", 2]], ["failed", ["is", NOTFIRED]], ["failed", ["not", ["is", NOTFIRED]]],
-            ["failed", ["either", ["is", IMPOSSIBLE], ["is", 4]]],
+            ["failed", ["either", ["is", IMPOSSIBLE], ["is", 4]]], ["failed", ["is", KBINT]],
+            ["failed", ["not", ["either", ["is", SYSEXIT], ["is", DBASE]]]],
             # nested inner matchers
             ["succeeded", ["not", ["is", 3]]], ["failed", ["not", ["is", 1]]],
             ["succeeded", ["either", ["is", 0], ["is", 3]]], ["failed", ["both", ["not", ["is", 2]], ["always"]]],
             ["succeeded", ["both", ["is", 3], ["not", ["never"]]]], ["failed", ["either", ["never"], ["is", 2]]]]
 CBS = [["pass"], ["const", 0], ["const", 3], ["raise", 1], ["rec", 1], ["rec", 2], ["recnone", 3], ["wait"],
-       ["raise", NOTFIRED]]
+       ["raise", NOTFIRED], ["raise", KBINT], ["raise", GENEXIT]]
 RECS = [["rec", 1], ["rec", 2], ["recnone", 3]]
 
 
 def rand_inner(rng, depth=2):
     r = rng.random()
     if depth == 0 or r < 0.55:
-        return rng.choice([["always"], ["never"], ["is", rng.choice([0, 1, 2, 3, 3, NOTFIRED, NOTFIRED, IMPOSSIBLE, 4])]])
+        return rng.choice([["always"], ["never"], ["is", rng.choice([0, 1, 2, 3, 3, NOTFIRED, NOTFIRED, IMPOSSIBLE, 4, KBINT, SYSEXIT, GENEXIT, DBASE])]])
     if r < 0.7:
         return ["not", rand_inner(rng, depth - 1)]
     return [rng.choice(["both", "either"]), rand_inner(rng, depth - 1), rand_inner(rng, depth - 1)]
@@ -537,8 +551,10 @@ def rand_exc(rng):
     r = rng.random()
     if r < 0.22:
         return NOTFIRED
-    if r < 0.32:
+    if r < 0.30:
         return IMPOSSIBLE
+    if r < 0.55:
+        return rng.choice(BASE_TOKS)     # not an Exception
     return rng.choice([0, 1, 2, 3, 4, 5])
 
 
@@ -610,7 +626,8 @@ def generate(rng, tier):
     # SynchronousDeferredRunTest (first: the coverage sample of the evidence always contains case 0)
     for pos in range(4):
         for w in [["ok", 0], ["ok", 3], ["ok", 6], ["err", 0], ["err", 1], ["err", 2], ["err", 3], ["err", 4],
-                  ["err", 5], ["err", NOTFIRED], ["err", NOTFIRED, "via_extract"], ["err", IMPOSSIBLE]]:
+                  ["err", 5], ["err", NOTFIRED], ["err", NOTFIRED, "via_extract"], ["err", IMPOSSIBLE],
+                  ["err", KBINT], ["err", SYSEXIT], ["err", GENEXIT], ["err", DBASE]]:
             cases.append({"kind": "sync", "pos": pos, "what": w})
     rec = lambda t: ["add", ["rec", t], ["rec", t]]          # noqa: E731
     tri = [["match", MATCHERS[0]], ["match", MATCHERS[1]], ["match", MATCHERS[2]]]
@@ -627,7 +644,14 @@ def generate(rng, tier):
     hist([["fail", 0], ["extract"], rec(1)])
     hist([["fire", 3], ["fire", 4]])
     # exception identity is not state: a Deferred failed WITH DeferredNotFired / ImpossibleDeferredError
-    for t in (NOTFIRED, IMPOSSIBLE, 4):
+    for t in BASE_TOKS:
+        # a failure of a non-Exception class is inspected and the Deferred dropped: handled like any other
+        hist([rec(1), ["fail", t], ["match", ["failed", ["always"]]]])
+        hist([["fail", t], ["match", ["succeeded", ["always"]]], rec(1)])
+        hist([["add", ["raise", t], ["raise", t]], ["fire", 3], ["match", ["failed", ["is", t]]], rec(2)])
+        hist([["add", ["wait"], ["wait"]], ["fire", 0], ["resume", "err", t], ["match", ["failed", ["never"]]]])
+        hist([["fail", t], ["match", ["noresult"]]])
+    for t in (NOTFIRED, IMPOSSIBLE, 4) + tuple(BASE_TOKS):
         hist([["fail", t]] + tri + [rec(1)])
         hist([["fail", t], ["extract"], rec(1)])
         hist([["fail", t], ["match", ["failed", ["is", t]]], ["match", ["failed", ["is", 1]]], rec(1)])
